@@ -115,7 +115,11 @@ def judge_node(st: Stats, hist: History, specs: List[Dict[str, Any]], sch: Seque
         st.violation(dict(base, signature=f"C10 valid history rejected / {type(u.error).__name__}",
                           what=f"{sched_str(sch)}: {H.hist_str(hist)} :: {type(u.error).__name__}: {u.error}"))
         return
-    U = C.dump(u.computed)
+    U, uerr = C.try_dump(u.computed)
+    if U is None:
+        st.inc("evaluations")
+        st.violation(dict(base, signature="C10 figures unreadable / unfiltered run", what=f"{sched_str(sch)}: {H.hist_str(hist)} :: {uerr}"))
+        return
     dates = dates_of_interest(specs)
     tos: List[Optional[date]] = [None] + list(dates)
     froms: List[Optional[date]] = [None] + list(dates)
@@ -132,7 +136,11 @@ def judge_node(st: Stats, hist: History, specs: List[Dict[str, Any]], sch: Seque
                 st.violation(dict(base, from_date=None, to_date=str(td), signature=f"C10 window rejected / {type(t.error).__name__}",
                                   what=f"{sched_str(sch)} -t {td}: {H.hist_str(hist)} :: {type(t.error).__name__}: {t.error}"))
                 continue
-            T = C.dump(t.computed)
+            T, terr = C.try_dump(t.computed)
+            if T is None:
+                st.inc("evaluations")
+                st.violation(dict(base, from_date=None, to_date=str(td), signature="C10 figures unreadable / to-date run", what=f"{sched_str(sch)} -t {td}: {H.hist_str(hist)} :: {terr}"))
+                continue
         for fd in froms:
             if only is not None and fd != only[0]:
                 continue
@@ -150,7 +158,11 @@ def judge_node(st: Stats, hist: History, specs: List[Dict[str, Any]], sch: Seque
                     st.violation(dict(base, from_date=str(fd), to_date=str(td) if td else None, signature=f"C10 window rejected / {type(w.error).__name__}",
                                       what=f"{sched_str(sch)} -f {fd} -t {td}: {H.hist_str(hist)} :: {type(w.error).__name__}: {w.error}"))
                     continue
-                W = C.dump(w.computed)
+                W, werr = C.try_dump(w.computed)
+                if W is None:
+                    st.violation(dict(base, from_date=str(fd), to_date=str(td) if td else None, signature="C10 figures unreadable / windowed run",
+                                      what=f"{sched_str(sch)} -f {fd} -t {td}: {H.hist_str(hist)} :: {werr}"))
+                    continue
             problem = judge_window(C, specs, U, T, W, fd, td)
             hides = len(W["detail"]) < len(U["detail"]) and len(W["detail"]) > 0
             if hides:
